@@ -199,4 +199,58 @@ theorem normalizeSource_ne_empty (cwd s : String) (h : s ≠ "") : normalizeSour
   have := congrArg String.length hc
   simp [String.length_append] at this
 
+/-! ### well-formed lists of discovered repositories; the forced loop -/
+
+/-- the shard paths the builder derives for two discovered repositories do not interfere (distinct names ↦ distinct
+    `url.QueryEscape`d file prefixes; checked by the driver on every case) -/
+def Apart (a b : Repo) : Prop := a.shard0 ∉ b.shard0 :: b.more ∧ b.shard0 ∉ a.shard0 :: a.more
+
+def WF (d : List Repo) : Prop := d.Pairwise Apart
+
+/-- `IndexState` looks at the shard found at the repository's first shard path only -/
+theorem indexState_congr (i j : Inv) (r : Repo) (h : String) (hl : lookup i r.shard0 = lookup j r.shard0) :
+    indexState i r h = indexState j r h := by
+  unfold indexState; rw [hl]
+
+theorem indexState_missing (i : Inv) (r : Repo) (h : String) (hl : lookup i r.shard0 = none) :
+    indexState i r h = .missing := by
+  unfold indexState; rw [hl]
+
+/-- the forced loop changes only the shard paths of the repository it is working on -/
+theorem indexOne_force_lookup (P : List String) (st : Run) (r : Repo) (q : String) (hq : q ∉ r.shard0 :: r.more) :
+    lookup (indexOne false P st r).inv q = lookup st.inv q := by
+  unfold indexOne
+  cases r.head with
+  | none => rfl
+  | some h =>
+    simp only [Bool.false_eq_true, ↓reduceIte]
+    split
+    · rfl
+    · exact lookup_rebuild_other _ _ _ _ hq
+
+/-- the preview's loop and the forced run's loop, as `runSync` starts them -/
+def pvLoop (cwd : String) (d : List Repo) (inv : Inv) : Run :=
+  d.foldl (indexOne true ((planPrune cwd d inv).map (·.shard))) ⟨[], inv, false⟩
+
+def fcLoop (cwd : String) (d : List Repo) (inv : Inv) : Run :=
+  d.foldl (indexOne false []) ⟨[], (planPrune cwd d inv).foldl (fun i a => removePath i a.shard) inv, false⟩
+
+def tailP (err : Bool) : List Event := if err then [] else [Event.passF]
+
+theorem runSync_preview (cwd : String) (d : List Repo) (inv : Inv) :
+    runSync false cwd d inv =
+      ⟨(planPrune cwd d inv).map Event.wouldRemove ++ (pvLoop cwd d inv).events ++ tailP (pvLoop cwd d inv).err,
+       (pvLoop cwd d inv).inv, (pvLoop cwd d inv).err⟩ := by
+  unfold runSync applyRemovals indexRepositories pvLoop tailP
+  simp only [Bool.not_false, ↓reduceIte, Bool.false_eq_true]
+  split <;> simp_all
+
+theorem runSync_force (cwd : String) (d : List Repo) (inv : Inv) :
+    runSync true cwd d inv =
+      ⟨(planPrune cwd d inv).map Event.removing ++ (fcLoop cwd d inv).events, (fcLoop cwd d inv).inv,
+       (fcLoop cwd d inv).err⟩ := by
+  unfold runSync applyRemovals indexRepositories fcLoop
+  simp only [Bool.not_true, ↓reduceIte, Bool.false_eq_true, List.append_nil]
+  split <;> simp_all
+
 end ZoektModel.C33
